@@ -365,9 +365,10 @@ def validate (d : Description) (devblk : Nat := 4096) : V × Stats := Id.run do
             if foff + tail > ul then vs := vio vs "inode-fragment-range" s!"{w}: tail [{foff},{foff + tail}) outside fragment block {fidx} of {ul} bytes"
           | _ => pure ()
           if foff + tail > bs then vs := vio vs "inode-fragment-range" s!"{w}: tail [{foff},{foff + tail}) exceeds the block size"
-  for k in [1:sb.inodeCount + 1] do
-    if !seenIno.contains k && inodes.size == sb.inodeCount then
-      vs := vio vs "inode-number-missing" s!"no inode has number {k}"
+  if inodes.size == sb.inodeCount then
+    for k in [1:sb.inodeCount + 1] do
+      if !seenIno.contains k then
+        vs := vio vs "inode-number-missing" s!"no inode has number {k}"
   -- xattr sets
   for h : k in [0:P.xattrIds.size] do
     st := { st with xattrSets := st.xattrSets + 1 }
